@@ -18,17 +18,13 @@ import (
 
 func propMachine(t *rapid.T, c *cx) {
 	test := "C20_Machine/" + c.I.Name()
-	lg := rapid.IntRange(0, rep.Scale(6, 8)).Draw(t, "lg")
-	size := 1 << lg
-	rho0 := rapid.SampledFrom([]int{1, 1, 1, 2, 4}).Draw(t, "rho0")
-	pal := shiftPalette(c, 8*size)
+	size, f, n0, classes0 := drawInit(t, rep.Scale(6, 8), "")
+	pal := shiftPalette(c, 8*np2(size))
 	s := rapid.SampledFrom(pal).Draw(t, "cosetshift")
 	co, coClass := drawElems(t, c, size, "coef")
 	sh := &shared{c: c, p: ref.NewPoly(c.F, co), size: size, s: s, pal: pal, tabs: map[int]*tables{}}
-	f := rapid.SampledFrom(allForms).Draw(t, "form")
-	var classes0 []string
-	m := newModel(sh, f, size*rho0)
-	if rho0 == 1 && rapid.IntRange(0, 2).Draw(t, "spare") == 0 {
+	m := newModel(sh, f, n0)
+	if n0 == size && rapid.IntRange(0, 2).Draw(t, "spare") == 0 {
 		m = newModelSpare(sh, f, size, rapid.SampledFrom([]int{1, size, 3*size + 3}).Draw(t, "sparecap"))
 		classes0 = append(classes0, "init_spare_capacity")
 	}
@@ -37,9 +33,6 @@ func propMachine(t *rapid.T, c *cx) {
 		maxLen = m.n
 	}
 	classes := append(classes0, "init:"+f.String(), fmt.Sprintf("size:%d", size), "coeffs:"+coClass)
-	if rho0 > 1 {
-		classes = append(classes, "init_extended")
-	}
 	conv, domainPoint, shifted, rt := 0, false, false, false
 	probe := func(label string) {
 		m.checkShape(t)
@@ -77,9 +70,10 @@ func propMachine(t *rapid.T, c *cx) {
 			if a == opWriteRead {
 				rt = true
 				classes = append(classes, "writeread_"+shiftClass(m.shift, size))
+				classes = append(classes, rtClasses(size, m.shift)...)
 			}
 		case a == nOps, a == nOps+1:
-			k := drawShift(t, size, lbl+"shift")
+			k := drawRtShift(t, size, lbl+"shift")
 			m.shift = k
 			m.lib.Shift(k)
 			m.hist = append(m.hist, fmt.Sprintf("Shift(%d)", k))
